@@ -116,7 +116,21 @@ pub fn judge_atan2(y: [f64; 2], x: [f64; 2], l: Option<&mut Local>) -> Verdict {
     }, l)
 }
 
+pub fn hist_judge(c: &crate::hist::HCall, l: Option<&mut Local>) -> Verdict {
+    use crate::api::Op;
+    match c.as_op() {
+        Some(Op::asin) => judge1(0, c.a, l),
+        Some(Op::acos) => judge1(1, c.a, l),
+        Some(Op::atan) => judge1(2, c.a, l),
+        Some(Op::atan2) => judge_atan2(c.a, c.b, l),
+        _ => Verdict::Skip,
+    }
+}
+
 pub fn replay(call: &str, _clause: &str, args: &[u64]) -> Verdict {
+    if call == "hist" {
+        return crate::hist::replay(args, &hist_judge);
+    }
     let x = [f64::from_bits(args[0]), f64::from_bits(args[1])];
     match call {
         "asin" => judge1(0, x, None),
@@ -319,5 +333,13 @@ pub fn run(r: &mut Runner) {
                 }
             }
         });
+    }
+    {
+        use crate::api::Op;
+        let bases: Vec<[f64; 2]> = vec![[-0.25, 0.0], [0.3, 1e-18], [0.4375, 0.0], [2.0, -1e-17], [0.9, 2e-17], [40.0, 0.0]];
+        let mut groups = crate::hist::unary_groups(&[Op::atan], &bases, [0.6, 0.0]);
+        groups.extend(crate::hist::unary_groups(&[Op::asin, Op::acos], &[[-0.25, 0.0], [0.5, 1e-18], [0.99, 0.0]], [0.1, 0.0]));
+        groups.extend(crate::hist::binary_groups(&[Op::atan2], &[([-1.0, 0.0], [8.0, 0.0]), ([1.0, 1e-17], [-8.0, 0.0]), ([3.0, 0.0], [2.0, 1e-17])]));
+        crate::hist::explore(r, "histories: asin/acos/atan/atan2", &groups, 3, &hist_judge, 14u64 << 55);
     }
 }
